@@ -19,7 +19,7 @@ PROGRAMS = 3
 
 
 def shards(tier, seed):
-    cfgs = [(2, 0, False), (3, 1, False), (3, 1, True)] if tier == 'quick' else [(2, 0, False), (3, 1, False), (3, 1, True), (4, 1, False), (5, 2, False), (5, 2, True)]
+    cfgs = [(2, 0, False), (3, 1, False), (3, 1, True), (4, 1, False)] if tier == 'quick' else [(2, 0, False), (3, 1, False), (3, 1, True), (4, 1, False), (5, 2, False), (5, 2, True)]
     out = []
     for c in cfgs:
         for p in range(PROGRAMS):
@@ -88,7 +88,8 @@ def run(shard, rec):
     if p == 2:
         vals[1] = vals[0] if rng.random() < 0.5 else vals[1]
     # fault-free run: reference check + the outgoing stream layout of X
-    for policy in (('uniform', 'eager') if shard['every_byte'] else ('uniform',)):
+    # with spare parties (m >= 2t+2) the survivors can go on after a crash: there the order in which they notice it matters, so two schedulers also in quick
+    for policy in (('uniform', 'eager') if shard['every_byte'] or m >= 2 * t + 2 else ('uniform',)):
         sseed = rng.randrange(1 << 30)
         obs = [[] for _ in range(m)]
         program, ref = make_program(p, m, vals, obs)
